@@ -371,6 +371,7 @@ func digestView(v map[string]map[string][]byte) string {
 type viewDiff struct {
 	typ, name, kind string // kind: missing (fresh has it, client does not) | extra | content
 	explain         string
+	field           string // for content diffs: the proto field at which the two first differ
 }
 
 func diffViews(got, want map[string]map[string][]byte) []viewDiff {
@@ -402,7 +403,7 @@ func diffViews(got, want map[string]map[string][]byte) []viewDiff {
 			case string(gb) != string(wb):
 				d := viewDiff{typ: shortType(t), name: n, kind: "content"}
 				if len(out) == 0 {
-					d.explain = explainContent(t, gb, wb)
+					d.explain, d.field = explainContent(t, gb, wb)
 				}
 				out = append(out, d)
 			}
@@ -458,7 +459,7 @@ func (w *wis) freshViews(o wisOpts, like []*xdsClient) (map[string]map[string]ma
 }
 
 // explainContent renders the first differing lines of two serialized resources of a type.
-func explainContent(typeURL string, got, want []byte) string {
+func explainContent(typeURL string, got, want []byte) (string, string) {
 	mk := func(b []byte) []string {
 		var m proto.Message
 		switch shortType(typeURL) {
@@ -505,5 +506,17 @@ func explainContent(typeURL string, got, want []byte) string {
 	for j := i; j < i+10 && j < len(w); j++ {
 		fmt.Fprintf(&b, " + fresh : %s\n", w[j])
 	}
-	return b.String()
+	field := ""
+	for _, l := range [][]string{g, w} {
+		if i < len(l) && field == "" {
+			f := strings.TrimSpace(l[i])
+			if k := strings.IndexAny(f, ": {"); k > 0 {
+				f = f[:k]
+			}
+			if f != "}" {
+				field = f
+			}
+		}
+	}
+	return b.String(), field
 }
